@@ -1,12 +1,68 @@
 """C03 Names resolve lexically and calls bind arguments as declared."""
+import itertools
+
 from harness import progcheck
 from harness.props import common
 
 
+def binding_cases():
+    """argument binding and scoping laws with the result the stated rules give, written out"""
+    cases = []
+    # defaults are evaluated at call time, once per call: a mutable default is fresh for every call that uses it
+    lits = [("[]", "append(acc, x)", lambda xs: "[" + ", ".join(xs) + "]"),
+            ("[7]", "append(acc, x)", lambda xs: "[" + ", ".join(["7"] + xs) + "]"),
+            ("[[]]", "append(acc[0], x)", lambda xs: "[[" + ", ".join(xs) + "]]"),
+            ("<<>>", "append(acc, x)", lambda xs: "<<" + ", ".join(sorted(xs)) + ">>"),
+            ("<<0>>", "append(acc, x)", lambda xs: "<<" + ", ".join(["0"] + sorted(xs)) + ">>"),
+            ("<<<>>>", "acc[x] = x", lambda xs: "<<<" + ", ".join(f"{v} => {v}" for v in sorted(xs)) + ">>>" if xs else "<<<>>>"),
+            ("<<<0 => 0>>>", "acc[x] = x", lambda xs: "<<<" + ", ".join(f"{v} => {v}" for v in ["0"] + sorted(xs)) + ">>>"),
+            ("[1, 2]", "acc[0] = x", lambda xs: "[" + ", ".join([xs[-1] if xs else "1", "2"]) + "]"),
+            ("<*n = 0*>", "acc->n = x", lambda xs: "<*n=" + (xs[-1] if xs else "0") + "*>")]
+    for lit, mut, show in lits:
+        for calls in itertools.product(["d", "d", "e"], repeat=3):       # d = default used, e = explicit argument
+            args, want = [], []
+            for k, c in enumerate(calls, 1):
+                if c == "d":
+                    args.append(f"f({k})")
+                else:
+                    args.append(f"f({k}, {lit})")
+                want.append(show([str(k)]))
+            for form in ("def f(x, acc = {lit}) do {mut}; acc end", "def f = fn(x, acc = {lit}) do {mut}; acc end", "def mk() fn(x, acc = {lit}) do {mut}; acc end; def f = mk()"):
+                cases.append((form.format(lit=lit, mut=mut) + "; [" + ", ".join(args) + "]", ('text', "[" + ", ".join(want) + "]")))
+    cases += [
+        # call time, callee (definition) scope
+        ("def g = 1; def f(a = g) a; def r = [f()]; g = 2; append(r, f()); r", ('text', "[1, 2]")),
+        ("def mk() do def z = 10; fn(a = z) a end; def z = 1; mk()()", ('text', "10")),
+        ("def mk() do def z = 10; fn(a = z) a end; def h() do def z = 99; mk()() end; h()", ('text', "10")),
+        ("def f(a, b = a + 1, c = a + b) [a, b, c]; [f(1), f(1, 5), f(1, c = 0), f(b = 2, a = 4)]", ('text', "[[1, 2, 3], [1, 5, 6], [1, 2, 0], [4, 2, 6]]")),
+        ("def n = 0; def tick() do n = n + 1; n end; def f(a = tick()) a; [f(), f(9), f(), n]", ('text', "[1, 9, 2, 2]")),
+        # named first, positional to the remaining parameters in order, surplus to the rest parameter
+        ("def f(a, b, c) [a, b, c]; [f(1, 2, 3), f(2, 3, c = 1), f(2, 3, b = 1), f(3, 2, a = 1), f(b = 1, a = 2, c = 3), f(9, c = 1, b = 2)]",
+         ('text', "[[1, 2, 3], [2, 3, 1], [2, 1, 3], [1, 3, 2], [2, 1, 3], [9, 2, 1]]")),
+        ("def f(a, b = 5, r...) [a, b, r...]; [f(1), f(1, 2), f(1, 2, 3), f(1, 2, 3, 4), f(1, 2, b = 0), f(1, ...[2, 3, 4])]",
+         ('text', "[[1, 5, []], [1, 2, []], [1, 2, [3]], [1, 2, [3, 4]], [1, 0, [2]], [1, 2, [3, 4]]]")),
+        ("def f(a, b, c) [a, b, c]; [f(...[1, 2, 3]), f(1, ...[2, 3]), f(...[1], ...[2], 3), f(...<<<'c' => 1, 'a' => 2, 'b' => 3>>>), f(1, 2, ...<<<'c' => 7>>>)]",
+         ('text', "[[1, 2, 3], [1, 2, 3], [1, 2, 3], [2, 3, 1], [1, 2, 7]]")),
+        ("def f(x, a) [x, a]; def o = <*m = fn(self, a) [self->v, a], v = 3*>; def p = <*_proto_ = o, v = 4*>; [1 !> f(2), o->m(5), p->m(6)]", ('text', "[[1, 2], [3, 5], [4, 6]]")),
+        # every call gets fresh parameter bindings; assignment updates the nearest enclosing binding, never creates one
+        ("def f(a) do a = a + 1; a end; def a = 10; [f(1), f(1), a]", ('text', "[2, 2, 10]")),
+        ("def f(xs) do xs = xs + [1]; xs end; def l = [0]; [f(l), f(l), l]", ('text', "[[0, 1], [0, 1], [0]]")),
+        ("def c = 0; def bump() do c = c + 1; c end; def shadow() do def c = 100; c = c + 1; c end; [bump(), shadow(), bump(), c]", ('text', "[1, 101, 2, 2]")),
+        ("def f() do undefined_name = 1 end; f()", ('error', "'ERROR'")),
+        ("def f() do def inner = 1; inner end; f(); inner", ('error', "'ERROR'")),
+        ("def x = 'outer'; def show() x; def caller() do def x = 'caller'; show() end; caller()", ('text', "'outer'")),
+        ("def mk(n) fn() do n = n + 1; n end; def c1 = mk(0); def c2 = mk(10); [c1(), c1(), c2(), c1()]", ('text', "[1, 2, 11, 3]")),
+    ]
+    return cases
+
+
 def run(ctx):
     ctx.rule = ("generated programs of nested function definitions, closures returned from functions (counters, curried, composed), shadowing across up to 4 levels, bounded recursion, calls mixing positional / named / default / rest / spread arguments, pipeline and method forms; every program prints a trace; non-trivial = >= 2 scopes binding the same name or a call using >= 2 binding modes; each program is run on the implementation, on a reference interpreter written from the language rules "
-                "(value + printed trace must match) and on the Lean model evaluator")
+                "(value + printed trace must match) and on the Lean model evaluator; plus binding-law programs: mutable literal defaults (list, set, map, "
+                "object, nested) mutated through element / member / append across every pattern of three calls with and without the argument, in def, "
+                "lambda and closure-returning forms, call-time and definition-scope defaults, named/positional/rest/spread mixes")
     progcheck.run_profiles(ctx, ["scoping", "calls", "mixed"], 2500 if ctx.thorough else 330)
+    progcheck.run_templates(ctx, binding_cases(), "binding-laws")
     common.replay_known(ctx)
 
 
